@@ -122,6 +122,15 @@ func (t *Task) prepForQueueing() (ok bool) {
 	if t.maxDelay != 0 {
 		t.executeAt = time.Now().Add(t.maxDelay)
 		t.addToSchedule(true)
+	} else if t.scheduleListElement != nil && !t.executeAt.After(time.Now()) {
+		// Without a max delay there is no overtime handling: a task that is
+		// due leaves the schedule when it is queued, or the schedule handler
+		// would start it directly, bypassing the queue.
+		scheduleLock.Lock()
+		taskSchedule.Remove(t.scheduleListElement)
+		t.overtime = false
+		scheduleLock.Unlock()
+		t.scheduleListElement = nil
 	}
 
 	return true
